@@ -47,6 +47,8 @@ public:
         auto &s = p.sknobs;
         // a server profile with stream management
         k[QStringLiteral("sm")] = r.chance(0.8) ? 2 : 1;
+        // the server may bind another address than the configured one; the application reconnects with its stored configuration
+        k[QStringLiteral("otherJid")] = (qint64)(mix64(seed, 0x07e1) % 100 < 15);
         k[QStringLiteral("autoAck")] = 0;
         k[QStringLiteral("csi")] = r.chance(0.6);
         k[QStringLiteral("scramIter")] = 1;
